@@ -52,6 +52,12 @@ func (d *intDecoder) parseInt(b []byte) (int64, error) {
 		isNegative = true
 	}
 	maxDigit := len(b)
+	if maxDigit == 0 {
+		return 0, fmt.Errorf("invalid number: sign without digits")
+	}
+	if maxDigit > 1 && b[0] == '0' {
+		return 0, fmt.Errorf("invalid number: leading zero")
+	}
 	if maxDigit > pow10i64Len {
 		return 0, fmt.Errorf("invalid length of number")
 	}
